@@ -282,7 +282,7 @@ def run_extract(task):
                         cons.append(z3.Not(w.lower().eqz(ag)))
         if not ctx.assume(z3.And(cons) if cons else z3.BoolVal(True)):
             return None
-        spc.re = _REX
+        rex.install(spc, _REX)
         conv = spc.PlanConverter.__new__(spc.PlanConverter)
         import logging
         conv.logger = logging.getLogger("verif")
@@ -336,7 +336,7 @@ def concrete_extract(plan_text, agents):
     import logging
     import re as real_re
     import pddl_plus_parser.multi_agent.single_agent_plan_converter as spc
-    spc.re = real_re
+    rex.uninstall(spc)
     conv = spc.PlanConverter.__new__(spc.PlanConverter)
     conv.logger = logging.getLogger("verif")
     want = []
